@@ -8,7 +8,7 @@ require (
 	github.com/goccmack/goutil v1.2.3 // indirect
 	github.com/pkg/errors v0.9.1 // indirect
 	golang.org/x/net v0.19.0
-	golang.org/x/text v0.14.0 // indirect
+	golang.org/x/text v0.14.0
 )
 
 replace github.com/ChrisTrenkamp/xsel => /repo
